@@ -99,7 +99,7 @@ def s_of(v):
 
 # ----------------------------------------------------------------------------- generator
 # how many Rust types the harness can carry a string in, per position (harness/ssr/src/c06.rs)
-N_ATTR_TYPES, N_CLASS_TYPES, N_STYLE_TYPES, N_PROP_TYPES, N_PROP_KEY_TYPES, N_TEXT_TYPES = 12, 11, 10, 9, 3, 9
+N_ATTR_TYPES, N_CLASS_TYPES, N_STYLE_TYPES, N_PROP_TYPES, N_PROP_KEY_TYPES, N_TEXT_TYPES = 24, 22, 19, 16, 3, 19
 N_BOOL_TYPES, N_TOGGLE_TYPES = 2, 3
 
 
@@ -615,8 +615,21 @@ def classify(item, impl, model):
     return None
 
 
+class _Strict:
+    """the strings of a case are lists of bytes: `bytes(3)` is three NULs, not an error, so a
+    shrinking candidate with a number in a string's place must not pass for a string"""
+    def __call__(self, x):
+        if not isinstance(x, list) or any(not isinstance(c, int) or not 0 <= c < 256 for c in x):
+            raise ValueError("not a string")
+        return _py_bytes(x)
+
+
+_py_bytes = bytes
+
+
 def valid_case(item):
     case = item["case"]
+    bytes = _Strict()
     try:
         op = case[0]
         if op == 2:
@@ -655,6 +668,7 @@ def valid_case(item):
 
 
 def valid_view(v, in_text_only=False):
+    bytes = _Strict()
     k = v[0]
     if k == 5:
         return len(v) == 3 and isinstance(v[1], int) and 0 <= v[1] < 16 and valid_view(v[2])
